@@ -119,7 +119,7 @@ def generate(job):
         spec["n_part"] = n
         spec["perm"] = rs.shuffle(list(range(n)))
         for _ in range(rs.randint(3, 7)):
-            k = rs.choice(["loadfile", "loadfile", "multifile", "savetxt_raw", "savetxt_processed", "savetxt_processed", "calangle_savetxt", "save_struct", "cached_data"])
+            k = rs.choice(["loadfile", "loadfile", "multifile", "savetxt_raw", "savetxt_processed", "savetxt_processed", "calangle_savetxt", "cal_angle_forms", "save_struct", "cached_data"])
             spec["ops"].append({"k": k, "fmt": rs.choice(["dat", "npy", "npz"]), "nfile": rs.choice([1, 2, 3]), "z": rs.chance(0.4)})
         if rs.chance(0.35):
             spec["fault"] = {"at": rs.randrange(len(spec["ops"])), "bytes": rs.choice([0, 40, 200, 1000])}
@@ -571,6 +571,21 @@ def run_files(spec, log, scratch):
                 back = cfg.data.load_data(fn)
                 got = {str(kk): np.array(v["p"]) for kk, v in back["particle"].items() if str(kk) in P}
                 check_particles(got, "%s->load_data(%s, dat_order=%s)" % (k, fmt, "".join(order)), i, exact=(fmt != "dat"))
+            elif k == "cal_angle_forms":
+                # momenta handed over as a list / tuple in dat_order instead of a dict: same particle assignment
+                as_dict = cfg.data.cal_angle({kk: v for kk, v in p.items()})
+                byname = {str(kk): v for kk, v in p.items()}
+                seq = [byname[nm] for nm in order]
+                for form, arg in (("list", list(seq)), ("tuple", tuple(seq))):
+                    res = cfg.data.cal_angle(arg)
+                    got = {str(kk): np.array(v["p"]) for kk, v in res["particle"].items() if str(kk) in P}
+                    check_particles(got, "cal_angle(%s in dat_order %s)" % (form, "".join(order)), i, exact=True)
+                ref_m = {str(kk): np.array(v["m"]) for kk, v in as_dict["particle"].items()}
+                got_m = {str(kk): np.array(v["m"]) for kk, v in res["particle"].items()}
+                for nm in ref_m:
+                    if not np.allclose(ref_m[nm], got_m[nm], rtol=1e-12):
+                        log.fail("particle-assignment", "cal_angle(sequence)|masses", "invariant mass of %s differs between dict and sequence input" % nm, step=i)
+                        raise Failure()
             elif k == "calangle_savetxt":
                 # the data object's own writer: particle order given explicitly or the natural order of the decay
                 src = cfg.data.cal_angle({kk: v for kk, v in p.items()})
